@@ -308,6 +308,52 @@ pub fn run(seed: u64, n: usize, out: &mut Out, with_mistakes: bool) {
     let base = Rng::new(seed ^ if with_mistakes { 0xC02 } else { 0xC01 });
     let per = (n / recvs.len()).max(1);
     let mut id = 0usize;
+    if with_mistakes {
+        // witnesses of the recorded findings F25–F27 (mistakes hidden behind another mistake; the index of
+        // a `multiple` occurrence): fixed shapes, on the first receivers of the corpus that fit; the outer
+        // name tells the check's judge what the answer must mention
+        let (mut nd, mut nc, mut ni) = (0, 0, 0);
+        for e in recvs.iter() {
+            let info = (e.info)();
+            let mut te = e.ty.clone();
+            te.kinds = vec!["Path"];
+            let mut srcs: Vec<(String, String)> = vec![];
+            if !info.is_enum && !info.has_flatten && !info.allow_unknown {
+                for f in info.fields.iter() {
+                    // a repeated (non-`multiple`) item whose second occurrence has a mistake of its own inside
+                    if nd < 3 && !f.multiple {
+                        if let (Some(v), Some(bad)) = (f.valid.first(), f.invalid.iter().find(|s| s.contains("zzz_unknown"))) {
+                            srcs.push((format!("w-d1-{}", nd), format!("wdup({}{}, {}{})", f.name, v, f.name, bad)));
+                            nd += 1;
+                        }
+                    }
+                    // two rejected occurrences of one `multiple` field
+                    if ni < 3 && f.multiple {
+                        if let Some(bad) = f.invalid.iter().find(|s| s.starts_with(" = ")) {
+                            srcs.push((format!("w-d3-{}", ni), format!("windex({}{}, {}{})", f.name, bad, f.name, bad)));
+                            ni += 1;
+                        }
+                    }
+                }
+            }
+            if info.is_enum && nc < 3 {
+                // two items in an enum's list, the first with a mistake of its own inside
+                if let Some(bad) = info.invalid.iter().find(|s| s.contains("zzz_unknown") && s.starts_with('(') && s.ends_with("))")) {
+                    srcs.push((format!("w-d2-{}", nc), format!("wcount({}, nope)", &bad[1..bad.len() - 1])));
+                    nc += 1;
+                }
+            }
+            for (wid, src) in srcs {
+                if let Some(m) = parse_meta_pub(&src) {
+                    let mut cands = BTreeSet::new();
+                    collect_names(&decls[info.name], &decls, &mut BTreeSet::new(), &mut cands);
+                    let (case, ans) = meta_case_with(&te, &m, "recv", if no_sim { vec![] } else { score_rows(&m, &cands) });
+                    out.stat("finding_witnesses", 1);
+                    out.case_id("recv", &wid, &case, &ans);
+                }
+            }
+        }
+    }
     for (k, e) in recvs.iter().enumerate() {
         let info = (e.info)();
         let mut cands = BTreeSet::new();
